@@ -238,9 +238,8 @@ HARNESSES = {
                 "jobs": lambda tier: ([{"ngenes": 2, "k": 3, "allow_opts": [False, True], "ops": AUTH_OPS, "typed": False},
                                        {"ngenes": 2, "k": 2, "allow_opts": [False], "ops": EXPR_OPS, "typed": True}] if tier == "quick" else
                                       [{"ngenes": 3, "k": 3, "allow_opts": [False, True], "ops": AUTH_OPS, "typed": False},
-                                       {"ngenes": 2, "k": 4, "allow_opts": [False], "ops": ["mutate", "rollback", "set_expression"], "typed": False},
-                                       {"ngenes": 2, "k": 2, "allow_opts": [False, True], "ops": EXPR_OPS, "typed": True},
-                                       {"ngenes": 2, "k": 3, "allow_opts": [False], "ops": ["set_expression", "express", "replicate"], "typed": True}]),
+                                       {"ngenes": 2, "k": 3, "allow_opts": [False, True], "ops": AUTH_OPS, "typed": False},
+                                       {"ngenes": 2, "k": 2, "allow_opts": [False, True], "ops": EXPR_OPS, "typed": True}]),
                 "clauses": ["C20.a", "C20.a-expr", "C20.b", "C20.c", "C20.c-alias", "C20.c-others", "C20.d", "C20.e"]},
 }
 
@@ -252,7 +251,7 @@ META = {
     },
     "files": ["operon_ai/state/genome.py"],
     "bounds": {"quick": "2 genes: k=3 over {add_gene, mutate, rollback, replicate, set_expression} (structural genes), k=2 over {set_expression, express, replicate, mutate} with all gene types/expression levels; both allow_mutations settings, callback none/symbolic, up to 2 children",
-               "thorough": "3 genes k=3 over all five structural operations; 2 genes k=4 over {mutate, rollback, set_expression} with mutations disabled; typed k=2 (both settings) and typed k=3 over {set_expression, express, replicate} (k=4 over all five operations and typed k=3 over four operations exceed 5 minutes each on 16 cores: outside)"},
+               "thorough": "3 genes k=3 and 2 genes k=3 over all five structural operations; typed k=2 (k=4, and typed k=3, take more than 20 minutes on 16 cores: outside)"},
     "outside": ["random mutations (mutation_rate>0)", "add_gene of NEW names", "export/from_dict/diff/validate", "hash collisions"],
     "float_argument": "none",
     "assumptions": ["approval callback returns a fresh symbolic boolean per consultation"],
